@@ -14,14 +14,14 @@ from simkit.runner import RunOutcome
 class C28(EngineACheck):
     PROPERTY = "C28"
     RULE = (
-        "generated programs on backends with a generated history (empty; one full execution; a "
+        "generated programs (one in four a handle-passing workflow) on backends with a generated history (empty; one full execution; a "
         "partial execution killed at a seeded commit; full execution followed by an edit of one "
         "task); then run(dryrun=True) under a seeded schedule, then a real run on a copy of the "
         "same backend file; a case is (program, history, schedules); non-trivial = the backend "
         "held cached results when the dry run started"
     )
     EXPECTED_PROBES = ["dryruns_completed", "dryruns_stopped_early", "backends_fully_cached",
-                       "backends_partially_cached", "backends_after_edit"]
+                       "backends_partially_cached", "backends_after_edit", "handle_programs"]
     QUICK_SECONDS = 30.0
 
     def run_one(self, ch: Choices) -> RunOutcome:
@@ -31,7 +31,15 @@ class C28(EngineACheck):
                         p_dup=0.2, max_tasks=6,
                         task_options=[{"check_valid": "shallow"}, {"cache_scope": "CSE"}],
                         p_task_option=0.2)
-        prog = Gen(ch, cfg).generate()
+        if ch.choice(4, "program-family") == 3:
+            # handle-passing workflows: preparing a call forks the handle (a recorded state), which
+            # is part of what decides whether the call is cached
+            from checks.c07 import gen_handle_program
+
+            prog = gen_handle_program(ch, avoid_known=True)
+            out.probe("handle_programs")
+        else:
+            prog = Gen(ch, cfg).generate()
         hist = ch.choice(4, "history")  # 0 empty, 1 full, 2 partial (crash), 3 full + edit
         db = schedsim.fresh_db("dry.db")
         w = res = None
@@ -45,7 +53,7 @@ class C28(EngineACheck):
                 out.probe("backends_partially_cached")
                 out.fault("crash_before_commit")
             if hist == 3:
-                cands = histsim.editable_tasks(prog)
+                cands = histsim.editable_tasks(prog) if getattr(prog, "tasks", None) else []
                 if cands:
                     histsim.apply_variant(cands[ch.choice(len(cands), "edit")], 1)
                     sess.reload(prog)
@@ -72,7 +80,7 @@ class C28(EngineACheck):
             proglib.reset_hits()
             real = enginea.simulate(ch, prog, db_path=db_real, session=sess)
             self.fill(out, real.world, prog, extra_key=f"real{hist}")
-            executed = sum(proglib.HITS.values())
+            executed = sum(proglib.HITS.values()) + sum(r.handoffs for r in real.rec.jobs.values())
             if dry.outcome[0] == "dry":
                 out.probe("dryruns_stopped_early")
                 if executed == 0 and real.outcome[0] in ("v", "e"):
